@@ -32,20 +32,124 @@ def P(name, space=None):
     return Val(sym(name), space=space)
 
 
-def assume_map(mapping):
-    """assume callback from {normalised test source: bool}; matching is on the unparsed test expression"""
+_FLIP = {ast.Gt: ast.Lt, ast.GtE: ast.LtE}
 
-    def f(fn, node, av):
+
+class _Canon(ast.NodeTransformer):
+    """canonical orientation of comparisons (a > b -> b < a) so that mirrored tests compare equal"""
+
+    def visit_Compare(self, node):
+        self.generic_visit(node)
+        if len(node.ops) == 1 and type(node.ops[0]) in _FLIP:
+            return ast.Compare(left=node.comparators[0], ops=[_FLIP[type(node.ops[0])]()], comparators=[node.left])
+        return node
+
+
+def _canon_expr(src_or_node):
+    node = ast.parse(src_or_node, mode="eval").body if isinstance(src_or_node, str) else src_or_node
+    import copy as _copy
+    return _Canon().visit(_copy.deepcopy(node))
+
+
+def _alpha_match(key_node, test_node, renameable, mapping):
+    """structural equality of two expressions up to a consistent renaming of function-local variable names"""
+    if type(key_node) is not type(test_node):
+        return False
+    if isinstance(key_node, ast.Name):
+        if key_node.id == test_node.id:
+            return True
+        if test_node.id in renameable:
+            if key_node.id in mapping:
+                return mapping[key_node.id] == test_node.id
+            if test_node.id in mapping.values():
+                return False
+            mapping[key_node.id] = test_node.id
+            return True
+        return False
+    for f_ in key_node._fields:
+        a_, b_ = getattr(key_node, f_, None), getattr(test_node, f_, None)
+        if f_ in ("ctx", "lineno", "col_offset", "end_lineno", "end_col_offset", "kind"):
+            continue
+        if isinstance(a_, list):
+            if not isinstance(b_, list) or len(a_) != len(b_):
+                return False
+            for x, y in zip(a_, b_):
+                if isinstance(x, ast.AST):
+                    if not _alpha_match(x, y, renameable, mapping):
+                        return False
+                elif x != y:
+                    return False
+        elif isinstance(a_, ast.AST):
+            if not isinstance(b_, ast.AST) or not _alpha_match(a_, b_, renameable, mapping):
+                return False
+        elif a_ != b_:
+            return False
+    return True
+
+
+def assume_map(mapping, prog=None):
+    """configuration of an obligation: truth values for branch tests, keyed by the test's source text as it reads today.
+    Matching is robust to mirrored comparisons (a > b vs b < a) and to a consistent renaming of the function's local
+    variables (names assigned inside the function; parameters and globals must match exactly)."""
+    keys = []
+    for k, v in mapping.items():
+        fnq, text = (k if isinstance(k, tuple) else (None, k))
+        try:
+            keys.append((fnq, text, _canon_expr(text), v))
+        except SyntaxError:
+            keys.append((fnq, text, None, v))
+    locals_cache, rename_cache = {}, {}
+    used = set()
+
+    def locals_of(fr_fn, module, node):
+        if fr_fn not in locals_cache:
+            names = set()
+            try:
+                q = fr_fn
+                defs = module.defs
+                fnode = defs.get(q.split(".", 1)[1]) if "." in q else None
+                if fnode is not None:
+                    params = {a.arg for a in fnode.args.posonlyargs + fnode.args.args + fnode.args.kwonlyargs}
+                    for n in ast.walk(fnode):
+                        if isinstance(n, ast.Name) and isinstance(n.ctx, ast.Store) and n.id not in params:
+                            names.add(n.id)
+            except Exception:  # noqa
+                pass
+            locals_cache[fr_fn] = names
+        return locals_cache[fr_fn]
+
+    def f(fn, node, av, module=None):
         try:
             key = " ".join(ast.unparse(node).split())
         except Exception:  # noqa
             return None
-        if key in mapping:
-            return mapping[key]
-        if (fn, key) in mapping:
-            return mapping[(fn, key)]
+        for fnq, text, knode, v in keys:
+            if fnq is not None and fnq != fn:
+                continue
+            if text == key:
+                used.add(text)
+                return v
+        if module is None:
+            return None
+        try:
+            tnode = _canon_expr(node)
+        except Exception:  # noqa
+            return None
+        ren = locals_of(fn, module, node)
+        for fnq, text, knode, v in keys:
+            if knode is None or (fnq is not None and fnq != fn):
+                continue
+            if isinstance(knode, ast.Name) or (isinstance(knode, ast.UnaryOp) and isinstance(knode.operand, ast.Name)):
+                continue  # a bare flag: parameters are matched by exact text only
+            m_ = dict(rename_cache.get(fn, {}))
+            if _alpha_match(knode, tnode, ren, m_):
+                rename_cache[fn] = m_
+                used.add(text)
+                return v
         return None
 
+    f.used = used
+    f.keys = [k[1] for k in keys]
     return f
 
 
